@@ -79,11 +79,16 @@ type Interp struct {
 	// Stuck lists branch conditions that never received a value (analysis bug
 	// or unsupported construct): any verdict based on this run is undecided.
 	Stuck []string
+	// noInitHeap: the run that evaluates the package initialisers themselves
+	noInitHeap bool
 	// collect is set while the observers are fed: during the final pass over a
 	// fixpoint, or during the second run of a determinate path.
 	collect bool
 	// OnCall observes every call whose callee is known, with argument values.
 	OnCall func(call *ssa.Call, callee *ssa.Function, args []Val, fr *frame)
+	// CallModel, when it answers, replaces the evaluation of a call (a harness
+	// standing in for a component it supplies itself, e.g. the token source).
+	CallModel func(callee *ssa.Function, args []Val, fr *frame) (Val, bool)
 	// OnAppend observes every append (final pass only): the call, the appended
 	// slice value and, when its length is known, its elements.
 	OnAppend func(call *ssa.Call, appended Val, elems []Val, fr *frame)
@@ -788,6 +793,24 @@ func (fr *frame) step(instr ssa.Instruction) bool {
 			fr.panicStores = append(fr.panicStores, fr.share())
 			return false
 		}
+	case *ssa.IndexAddr:
+		// a constant index at or beyond a known length: the run-time check fails
+		if base, idx := fr.eval(i.X), fr.eval(i.Index); base.K == KSlice && idx.K == KInt && idx.I.IsInt64() {
+			n := int64(base.Len)
+			if base.Len < 0 && base.Off == 0 {
+				n = -1
+				if b, ok := fr.in.PathBind["len("+base.S+")"]; ok && b.K == KInt && b.I.IsInt64() {
+					n = b.I.Int64()
+				}
+			} else if base.Len < 0 {
+				n = -1
+			}
+			if n >= 0 && (idx.I.Int64() < 0 || idx.I.Int64() >= n) {
+				fr.panics[i] = true
+				fr.panicStores = append(fr.panicStores, fr.share())
+				return false
+			}
+		}
 	case *ssa.TypeAssert:
 		if fr.must[i] {
 			fr.panics[i] = true
@@ -1385,6 +1408,14 @@ func (fr *frame) inputVal(path string, t types.Type) Val {
 		if pat, ok := fr.in.Prog.patternOfGlobalPath(path); ok {
 			return Val{K: KPtr, S: regexpObj(pat)}
 		}
+		if !fr.in.noInitHeap {
+			if v, ok := fr.in.Prog.initCell(path); ok {
+				return v
+			}
+			if strings.HasPrefix(path, "g:"+modPath) {
+				return top
+			}
+		}
 	}
 	if path == "g:strconv.ErrRange" || path == "g:strconv.ErrSyntax" {
 		if st := fr.in.Prog.namedType("errors", "errorString"); st != nil {
@@ -1414,6 +1445,14 @@ func (fr *frame) load(path string, t types.Type) Val {
 	if b, ok := in.PathBind[path]; ok {
 		return b
 	}
+	if len(in.PathBind) > 0 && strings.HasSuffix(path, "]") && !strings.HasSuffix(path, "[*]") {
+		// a binding of every element covers each constant index
+		if i := strings.LastIndex(path, "["); i > 0 {
+			if b, ok := in.PathBind[path[:i]+"[*]"]; ok {
+				return b
+			}
+		}
+	}
 	st := fr.cur
 	if isAggregate(t) {
 		// a struct or array value: remembered as a copy of the cells below path
@@ -1422,6 +1461,10 @@ func (fr *frame) load(path string, t types.Type) Val {
 			for _, suffix := range leaves {
 				if c, ok := st.get(path + suffix); ok {
 					agg[suffix] = c
+				} else if !in.noInitHeap && strings.Contains(path, ".init#") {
+					if v, ok := in.Prog.initCell(path + suffix); ok {
+						agg[suffix] = cell{V: v}
+					}
 				}
 			}
 		} else {
@@ -1469,6 +1512,18 @@ func (fr *frame) load(path string, t types.Type) Val {
 	}
 	res := Val{K: KBot}
 	maybe := true
+	if !in.noInitHeap && strings.Contains(path, ".init#") {
+		// an object built by a package initialiser for a read-only table
+		if _, ok := st.get(path); !ok {
+			if strings.HasSuffix(path, "[*]") {
+				if all, ok := in.Prog.initCellsUnder(path[:len(path)-2]); ok {
+					return all
+				}
+			} else if v, ok := in.Prog.initCell(path); ok {
+				return v
+			}
+		}
+	}
 	if c, ok := st.get(path); ok {
 		res = c.V
 		// a cell of a summary object may also belong to a newer, still zero object
